@@ -15,15 +15,11 @@ def gen_graph(rng, n, cyclic):
             if rng.random() < 0.45:
                 edges[i].add(j)
     if cyclic:
-        # close a cycle: a self-loop, or an edge from an earlier node to a later one that reaches it
-        if n == 1 or rng.random() < 0.25:
-            k = rng.randrange(n)
-            edges[k].add(k)
-        else:
-            i = rng.randrange(1, n)
-            j = rng.randrange(i)
-            edges[i].add(j)
-            edges[j].add(i)
+        # close one simple cycle of length k (1 = a declaration that depends on itself) over randomly chosen nodes
+        k = rng.randint(1, n)
+        ring = rng.sample(range(n), k)
+        for a, b in zip(ring, ring[1:] + ring[:1]):
+            edges[a].add(b)
     return edges
 
 
@@ -44,6 +40,26 @@ def render(kind, edges, order):
     return out
 
 
+def lengths_module(rng, cyclic):
+    """declarations linked through named array lengths and size-of expressions (list of texts, to be permuted)"""
+    if not cyclic:
+        decls = ['const LEN: usize = %d;\n\n' % rng.randint(1, 9),
+                 'struct S\n{\n\ta: [LEN]i32,\n\tv: i32,\n}\n\n',
+                 'const BYTES: usize = |:[LEN]i32|;\n\n',
+                 'const SIZE: usize = |:S|;\n\n',
+                 'struct T\n{\n\ts: S,\n\tb: [LEN]u8,\n}\n\n']
+        pick = set(rng.sample([1, 2, 3, 4], rng.randint(1, 4)))
+        if 3 in pick or 4 in pick:
+            pick.add(1)     # SIZE and T need S
+        return [decls[0]] + [decls[i] for i in sorted(pick)]
+    shape = rng.choice(['self', 'struct_const', 'three'])
+    if shape == 'self':
+        return ['const A: usize = |:[A]u8|;\n\n', 'const LEN: usize = 3;\n\n']
+    if shape == 'struct_const':
+        return ['const A: usize = |:S|;\n\n', 'struct S\n{\n\ta: [A]i32,\n}\n\n', 'const LEN: usize = 3;\n\n']
+    return ['const A: usize = |:S|;\n\n', 'struct S\n{\n\tt: T,\n}\n\n', 'struct T\n{\n\ta: [A]i32,\n}\n\n']
+
+
 CYCLE_CODES = ('413', '415', '416')
 
 
@@ -62,8 +78,25 @@ def search(deadline, rng, graphs=60, orders=6):
     if replayrun.build()[0] is None:
         return None
     for g in range(graphs):
+        if g % 4 == 3:
+            cyclic = rng.random() < 0.4
+            decls = lengths_module(rng, cyclic)
+            perms = list(itertools.permutations(decls))
+            rng.shuffle(perms)
+            for order in perms[:orders]:
+                if time.time() > deadline:
+                    return None
+                src = ''.join(order) + 'fn main()\n{\n}\n'
+                r = replayrun.run('alpha', src.encode(), timeout=20)
+                if not verdict_ok(cyclic, r):
+                    return {'mode': 'alpha', 'input_utf8_lossy': src, 'input_hex': src.encode().hex(), 'observed': r,
+                            'expected': ('declarations linked through named lengths / size-of form a cycle: rejected with E413/E415/E416 in every order' if cyclic
+                                         else 'declarations linked through named lengths / size-of without a cycle: accepted in every declaration order'),
+                            'expect_cycle': cyclic,
+                            'how': 'replay_runner alpha <file> (usize constants with a literal value are made available as array lengths, as the compiler does through its generator)'}
+            continue
         kind = rng.choice(['const', 'struct'])
-        n = rng.randint(1, 5)
+        n = rng.choice([1, 2, 3, 4, 4, 5, 5])
         cyclic = rng.random() < 0.5
         edges = gen_graph(rng, n, cyclic)
         perms = list(itertools.permutations(range(n)))
